@@ -534,7 +534,12 @@ func (d *resolveUndoDecoder) readEntry() (*ResolveUndoEntry, error) {
 		}
 	}
 
-	for s := range e.Stages {
+	// Hashes are stored in stage order (1, 2, 3) for the stages whose mode
+	// is non-zero; a map range would pair them with stages at random.
+	for s := Stage(1); s <= 3; s++ {
+		if _, ok := e.Stages[s]; !ok {
+			continue
+		}
 		var h plumbing.Hash
 		h.ResetBySize(d.h.Size())
 		if _, err := h.ReadFrom(d.r); err != nil {
